@@ -5,7 +5,7 @@ from harness.props import sched_common as sc
 
 ID = 'C03'
 PROPS_FILE = 'Props/Props_C03.v'
-EXTRA_TARGETS = ['Sched/Case.vo']
+EXTRA_TARGETS = ['Sched/Case.vo', 'Sched/CaseOff.vo']
 CONST_PARTS = ('sched',)
 FAIL = sc.BITS['c03']
 MISMATCH = sc.BITS['model_oracle']
@@ -15,10 +15,18 @@ def extra(ctx, case, out, code, desc):
     obs = out.get('obs')
     if obs and not obs.get('filter_ok', True):
         ctx.failure('C03/%s/rows-filter' % case['dir'], 'ResourceUsageReport.rows(filter) disagrees with its rows', desc)
+    if obs and obs.get('row_not_a_day'):
+        ctx.failure('C03/%s/row-not-dated-by-a-day' % case['dir'],
+                    'a usage row is not dated by a day (%s): per-day totals cannot agree with the rows' % obs['row_not_a_day'], desc)
+    if obs and obs.get('row_unknown_task_or_resource'):
+        ctx.failure('C03/%s/row-foreign' % case['dir'], 'a usage row names a task or resource that is not in the result', desc)
+    if out.get('resource_differs_from_calendar'):
+        ctx.failure('C03/%s/resource-differs-from-calendar' % case['dir'],
+                    'a resource reports a capacity its calendar does not offer: %s' % out['resource_differs_from_calendar'][0], desc)
 
 
 def run(ctx):
-    sc.run_property(ctx, ID, FAIL, MISMATCH, extra=extra)
+    sc.run_property(ctx, ID, FAIL, MISMATCH, extra=extra, offgrid_fail=sc.BITS['c03'])
 
 
 def replay(ctx, rep):
